@@ -532,7 +532,7 @@ def selection_exact(tier, seed):
                            {"expected": expected, "Linter(other).get_rulepack(config=cfg)": got2, "Linter(cfg).get_rulepack()": got3})
     return {"name": "C21-get_rulepack-selection-exact",
             "bound": f"pairs (rules, exclude_rules) of <=2-element selector lists over a pool of {len(sels)} selectors "
-                     f"({', '.join(f'{len(v)} {k}s' for k, v in POOL.items())}): {len(lists)} lists, {pairs_total} pairs; "
+                     f"({', '.join(f'{k}: {len(v)}' for k, v in POOL.items())}) plus the absent and the explicitly empty option: {len(lists)} lists, {pairs_total} pairs; "
                      + ("all pairs" if tier == "thorough" else "seeded sample of 2400 pairs + every single selector on each side against the absent / explicitly empty option")
                      + f"; {n_fullpath} of them also through FluffConfig(overrides=rules/exclude_rules) + Linter.get_rulepack",
             "rule": "each evaluation calls the real RuleSet.get_rulepack on a config whose rule_allowlist/rule_denylist are the lists the real "
@@ -1168,7 +1168,7 @@ MUTANTS = [
      "                    rules_this_phase = get_ruleset().get_rulepack(FluffConfig(overrides={'dialect': 'ansi'})).rules\n                progress_bar_crawler"),
     ("post_phase_from_full_ruleset", "sqlfluff/core/linter/linter.py",
      "                    rule for rule in rule_pack.rules if rule.lint_phase == phase",
-     "                    rule for rule in get_ruleset().get_rulepack(config).rules if rule.lint_phase == phase"),
+     "                    rule for rule in get_ruleset().get_rulepack(FluffConfig(overrides={'dialect': 'ansi'})).rules if rule.lint_phase == phase"),
     ("extra_violations_appended", "sqlfluff/core/linter/linter.py",
      "                    if is_first_linter_pass():\n                        initial_linting_errors += linting_errors",
      "                    if is_first_linter_pass():\n                        initial_linting_errors += linting_errors\n"
